@@ -75,7 +75,7 @@ var numericStrings = []string{"5", "-1", "1.5", "1e3", "0x10", "007", ".5", "5."
 var latlngStrings = []string{"51.5,-0.12", "1,2", " 1 , 2 ", "+1,-0", "1e1,2", "nan,1", "inf,-inf", "Infinity,1", "1,NaN", "1.,.2", "51.50, -0.120",
 	" 1,2 ", " 1,2", "1,2,3", "1,", ",2", "1 ,2e-1", "+nan,1", "1e400,1", "-90.0000001,180", "1,2 3", "1,\t2"}
 var idStrings = []string{"/point/diagonal.works/ns/verif/1", "point/diagonal.works/ns/verif/21", "/path/a/b/7", "/area/ns/", "/invalid/ns/1", "/point//1", "point/ns/-1",
-	"/collection/x/0", "//point/ns/1", "/expression/e/18446744073709551615", "/relation/r/18446744073709551616", "/Point/ns/1", "/point/ns/1 "}
+	"/collection/x/0", "//point/ns/1", "/expression/e/18446744073709551615", "/relation/r/18446744073709551616", "/Point/ns/1", "/point/ns/1 ", "/point/ns/010", "/path/ns/0x10", "/area/a/1_0", "point/ns/0b1", "/point/ns/+1", "/relation/diagonal.works/ns/verif/028"}
 var punctStrings = []string{"a;b", ";", "a;", ";;", "1,2;3,4", "/point/ns/1;x", "a: b", "key: value", "\"q\"", "'s'", "it's", "#x", "- x", "[1,2]", "{a: b}", "a\nb", "a\tb", "", " ", "a:b", "x # y", "&a", "*a", "|", ">", "%", "@", "`", "!t", "?", ": "}
 var unicodeStrings = []string{"é", "日本", "naïve café", " ", "ß;ü", "Ω,1"}
 var yamlStrings = []string{"true", "yes", "no", "on", "Null", "NULL", "2001-01-01", "1:30", "<<", "=", ".inf", ".nan", "0b1", "1e+3", "nul", "~~"}
@@ -1039,7 +1039,7 @@ func main() {
 		Name: "c18",
 		Rule: "base = BasicMutableWorld (points 1-6, ring 1007, open path 1008 with a literal vertex, area 2009, relation 3010, collection 4011; varied positions and plain tags); 2-26 (thorough: up to 150) ops AddTag/RemoveTag/AddFeature over 23 ids (11 base, 11 overlay-only incl. polygon areas, relations that may contain each other, collections; 1 never existing), 3 searchable + 3 plain keys, values = strings from {plain, numeric-looking, lat,lng-looking, feature-id-looking, ;/:/quotes/yaml syntax, unicode, fuzz over the inference alphabet}, ints, floats, points, ids, lists; then export -> import into a fresh world -> full observation of both; non-trivial = at least one modified-tag document, two feature documents and a non-plain value",
 		Quick:    2500,
-		Thorough: 30000,
+		Thorough: 15000,
 		Corpus:   corpus,
 		Case:     runCase,
 	})
